@@ -15,7 +15,7 @@ PROP = "C06"
 # the same object / constant at two or three positions (all (T, R1, R2[, R3]) combinations of a small forest)
 REPEAT_KINDS = ["rep2_fact", "rep2_goal", "rep2_cfact", "rep2_fluent", "rep2_cfluent",
                 "rep3_fact", "rep3m_fact", "rep3_fluent", "rep3e_fluent"]
-# trajectory fluents with a repeated argument (finding D31, open: name-keyed type check), in cases of their own
+# trajectory fluents with a repeated argument (finding D31, repaired in 3c74fae: was a name-keyed type check), in cases of their own
 TRAJ_REPEAT_KINDS = ["rep2_tfluent", "rep3_tfluent", "rep3m_tfluent", "rep3e_tfluent"]
 CONST_KINDS = ["cforall_pre", "cforall_eff"]       # D30 (repaired): quantifiers over constants, in cases of their own
 # several quantifiers in ONE action: shapes of the generated actions (see quant_domain_text)
@@ -549,8 +549,7 @@ def build_cases(rng, tier, seed=0):
             lines, trailing = rng.choice(regroupings(par))
             gs, tr = apply_names(rng.sample(lines, len(lines)), trailing, name_map(len(par), rng))
             cases.append(mk_case(gs, tr, "forest-repeats", sites=True, rng=rng, kinds=REPEAT_KINDS))
-            cases.append(mk_case(gs, tr, "forest-trajectory-repeats", sites=True, rng=rng, kinds=TRAJ_REPEAT_KINDS,
-                                 klass="D31"))
+            cases.append(mk_case(gs, tr, "forest-trajectory-repeats", sites=True, rng=rng, kinds=TRAJ_REPEAT_KINDS))
     # 3b. quantifiers over CONSTANTS through the library's pipeline (finding D30), in cases of their own
     for par in (rng.sample(fs, 6) if tier == "quick" else fs):
         lines, trailing = rng.choice(regroupings(par))
@@ -564,14 +563,14 @@ def build_cases(rng, tier, seed=0):
         chosen = rng.sample([p_ for p_ in deep if len(p_) <= 4], 4) + rng.sample(deep, 2)
         per_shape = 8
     else:
-        chosen = [p_ for p_ in fs if len(p_) <= 4] + rng.sample(deep, 30)
-        per_shape = 25
+        chosen = [p_ for p_ in fs if len(p_) <= 4] + rng.sample(deep, 8)
+        per_shape = 14
     for qi, par in enumerate(chosen):
         lines, trailing = rng.choice(regroupings(par))
         gs, tr = apply_names(rng.sample(lines, len(lines)), trailing, name_map(len(par), rng))
         cases.append(mk_quant_case(gs, tr, rng, per_shape, hashseed=seed + qi % (3 if tier == "quick" else 5)))
     # ... and a larger random forest
-    for qi in range(1 if tier == "quick" else 8):
+    for qi in range(1 if tier == "quick" else 3):
         n = rng.randint(5, 7)
         par = rand_forest(rng, n, rng.randint(2, 5))
         lines, trailing = rand_arrangement(rng, par)
